@@ -327,6 +327,20 @@ class Generator(object):
                 # interval is smaller, no integral in first point
                 self.xvals = self.xinput[1:]
 
+            self._trim_leading_flat()
+
+    def _trim_leading_flat(self):
+        """
+        When the cumulative distribution starts with a run of equal values
+        (p(x) is zero there) keep only the last point of the run: a deviate
+        equal to that value would otherwise be interpolated on a zero-width
+        segment and come back as nan
+        """
+        nlead = numpy.searchsorted(self.pcum, self.pcum[0], side="right")
+        if 1 < nlead < self.pcum.size:
+            self.pcum = self.pcum[nlead - 1:]
+            self.xvals = self.xvals[nlead - 1:]
+
     def initialize_func(self):
         """
         Set up the case where the user sent x and p(x) as a function
@@ -353,6 +367,8 @@ class Generator(object):
 
                 # interval is smaller, no integral in first point
                 self.xvals = self.xinput[1:]
+
+            self._trim_leading_flat()
 
     def test(self, nrand=500000):
         """
